@@ -91,6 +91,9 @@ def _check(c, orig, model, input_db, span, kwargs, result, case):
     if kwargs.get("prepend_initial") or kwargs.get("append_terminal") or model.num_variants != 1:
         c.inconc("smooth:option-not-decided")
         return
+    # certificate shared with C03: non-singular, well-conditioned observation covariance, identified initial condition
+    if c03.prepare(c, model, input_db, span, kwargs, tag="smooth") is None:
+        return
     sm = out["smooth_med"]
     spec = case["spec"]
     span = tuple(span)
@@ -184,6 +187,10 @@ def _check(c, orig, model, input_db, span, kwargs, result, case):
                 return
     # ---- 4. re-simulation from the smoothed initial condition with the smoothed shocks
     lo = min([s for coefs in lin.teq + lin.meq for (_, s) in coefs] + [-1])
+    try:
+        lo = min(lo, int(model.max_lag))   # structural lags count even when their derivative vanishes
+    except Exception:
+        pass
     need = -lo + (1 if any(s < 0 for coefs in lin.meq for (_, s) in coefs) else 0)
     if N > need + 1:
         try:
@@ -193,6 +200,8 @@ def _check(c, orig, model, input_db, span, kwargs, result, case):
                     del sim_db[nm]
                 if f"log({nm})" in sim_db:
                     del sim_db[f"log({nm})"]
+            for k_ in [k_ for k_ in sim_db.keys() if k_.startswith("std_")]:
+                del sim_db[k_]   # the filter output carries all-NaN std series; the model's own std parameters apply
             sim_span = ir.Span(span[need], span[-1])
             with rt.quiet():
                 sim = model.simulate(sim_db, sim_span, method="first_order", deviation=deviation)
